@@ -384,9 +384,118 @@ fn run_decode(ctx: &Ctx, prop: &str, roundtrip: bool) {
 
 pub fn c01(ctx: &Ctx) {
     run_decode(ctx, "C01", false);
+    layout_stratum(ctx, false);
 }
 pub fn c08(ctx: &Ctx) {
     run_decode(ctx, "C08", true);
+    layout_stratum(ctx, true);
+}
+
+/// The triple workloads use N x 1 frames. This stratum decodes multi-row frames with real strides,
+/// paddings that differ between the planes and every subsampling, against the same oracle
+/// (pixel (x,y) takes the chroma sample at (x>>ss_x, y>>ss_y)); C08: 4:4:4 only, exact round trip.
+fn layout_stratum(ctx: &Ctx, roundtrip: bool) {
+    let cfgs = configs();
+    let pads: [(usize, usize, usize); 4] = [(0, 0, 0), (0, 0, 17), (0, 17, 0), (5, 32, 1)];
+    let sss: [(u8, u8); 6] = [(0, 0), (1, 0), (1, 1), (0, 1), (2, 0), (2, 2)];
+    let worst = Mutex::new(Worst::<(usize, (u8, u8), (usize, usize, usize), usize, usize)>::new());
+    let frames = AtomicU64::new(0);
+    let pixels = AtomicU64::new(0);
+    let prop = if roundtrip { "C08" } else { "C01" };
+    ev::par_ranges(prop, cfgs.len() as u64, 1, |_w, a, _b| {
+        let ci = a as usize;
+        let (m, full, n) = cfgs[ci];
+        let mut rng = Rng::new(ctx.seed, 0x1A70_0000 + a);
+        let (w, h) = (36usize, 8usize);
+        let maxc = 1u64 << n;
+        let mut lw = Worst::new();
+        for ss in sss {
+            if roundtrip && ss != (0, 0) {
+                continue;
+            }
+            for pad in pads {
+                let cfg = YuvConfig { subsampling_x: ss.0, subsampling_y: ss.1, ..cfg444(m, full, n) };
+                let mut r2 = rng.clone();
+                let f: Frame<u16> = mk_frame(w, h, ss, 0, |_, _, _| r2.below(maxc) as u32);
+                rng.next();
+                // rebuild with the requested per-plane paddings, same visible samples
+                let (cw, ch) = (w >> ss.0, h >> ss.1);
+                let mut g: Frame<u16> = Frame {
+                    planes: [Plane::new(w, h, 0, 0, pad.0, pad.0), Plane::new(cw, ch, ss.0 as usize, ss.1 as usize, pad.1, pad.1), Plane::new(cw, ch, ss.0 as usize, ss.1 as usize, pad.2, pad.2)],
+                };
+                for p in 0..3 {
+                    let (pw, ph) = if p == 0 { (w, h) } else { (cw, ch) };
+                    for v in g.planes[p].data.iter_mut() {
+                        *v = r2.below(maxc) as u16;
+                    }
+                    let stride = g.planes[p].cfg.stride;
+                    let d = g.planes[p].data_origin_mut();
+                    for y in 0..ph {
+                        for x in 0..pw {
+                            d[y * stride + x] = f.planes[p].p(x, y);
+                        }
+                    }
+                }
+                let Ok(yuv) = Yuv::new(g, cfg) else {
+                    ev::violation(format!("{prop}|layout|frame-rejected"), format!("well-formed {w}x{h} frame rejected ({ss:?}, pads {pad:?})"), J::Null);
+                    continue;
+                };
+                let Ok(rgb) = Rgb::try_from(&yuv) else {
+                    ev::violation(format!("{prop}|layout|decode-error|{m:?}"), "decode failed".to_string(), J::Null);
+                    continue;
+                };
+                frames.fetch_add(1, Relaxed);
+                pixels.fetch_add((w * h) as u64, Relaxed);
+                if !roundtrip {
+                    for y in 0..h {
+                        for x in 0..w {
+                            let t = [f.planes[0].p(x, y) as u32, f.planes[1].p(x >> ss.0, y >> ss.1) as u32, f.planes[2].p(x >> ss.0, y >> ss.1) as u32];
+                            let want = ypbpr_to_rgb(m, normalise(t, n as u32, full));
+                            let got = rgb.data()[y * w + x];
+                            for c in 0..3 {
+                                lw.upd((got[c] as f64 - want[c]).abs(), (ci, ss, pad, x, y));
+                            }
+                        }
+                    }
+                } else if let Ok(back) = Yuv::<u16>::try_from((&rgb, cfg)) {
+                    let k = 1u16 << (n - 8);
+                    'o: for p in 0..3 {
+                        for y in 0..h {
+                            for x in 0..w {
+                                let orig = f.planes[p].p(x, y);
+                                let exp = if full { orig } else { orig.clamp(16 * k, if p == 0 { 235 * k } else { 240 * k }) };
+                                let got = back.data()[p].p(x, y);
+                                if got != exp && !(full && p > 0 && orig == 0 && got == 1) {
+                                    ev::violation(
+                                        format!("C08|layout-roundtrip|{m:?}|{}|n={n}", if full { "full" } else { "limited" }),
+                                        format!("{w}x{h} frame with plane paddings {pad:?}: plane {p} sample ({x},{y}) = {orig} came back {got}"),
+                                        J::obj().set("kind", "layout").set("matrix", format!("{m:?}")).set("full", full).set("n", n).set("pad", [pad.0, pad.1, pad.2]).set("plane", p).set("x", x).set("y", y),
+                                    );
+                                    break 'o;
+                                }
+                            }
+                        }
+                    }
+                }
+            }
+        }
+        if !roundtrip && !(lw.err <= TOL_C01) {
+            if let Some((_, ss, pad, x, y)) = lw.at {
+                ev::violation(
+                    format!("C01|layout-decode|{m:?}|{}|n={n}", if full { "full" } else { "limited" }),
+                    format!("36x8 frame, subsampling {ss:?}, plane paddings {pad:?}: pixel ({x},{y}) is {:.3e} from the H.273 value of its (Y, U(x>>ss_x,y>>ss_y), V(..)) samples", lw.err),
+                    J::obj().set("kind", "layout").set("matrix", format!("{m:?}")).set("full", full).set("n", n).set("ss", [ss.0, ss.1]).set("pad", [pad.0, pad.1, pad.2]).set("x", x).set("y", y),
+                );
+            }
+        }
+        worst.lock().unwrap().merge(&lw);
+    });
+    ev::observe("layout_stratum_frames", frames.load(Relaxed));
+    ev::observe("layout_stratum_pixels", pixels.load(Relaxed));
+    if !roundtrip {
+        ev::observe("layout_stratum_worst_abs_err", worst.lock().unwrap().err);
+    }
+    ev::add_evals(pixels.load(Relaxed));
 }
 
 // ------------------------------------------------------------------ C02
